@@ -1,12 +1,13 @@
 import SaModel.Build.Finish
 import SaModel.Lemmas.C18Assembled
+import SaModel.Lemmas.C18ReadAs
 /-
 C18 — every conversion error names the field that caused it (serializer side).
 Errors carry annotations exactly as `ContextSupport::ctx` builds them: a context annotates only an error that
 carries no annotations yet, so the innermost builder that wraps a failure wins.
 -/
 namespace SaModel.Props.C18
-open SaModel SaModel.Build
+open SaModel SaModel.Build SaModel.Read
 
 /-- a context never changes a success, a panic, or an error that is already annotated -/
 theorem ctx_ok {α} (ann : List (String × String)) (r : R α) (v : α) : ctx ann r = .ok v ↔ r = .ok v := by
@@ -163,5 +164,102 @@ example :
         ("$.orders.element.price", "Int32"), ("$.orders.element.", "Utf8"),
         ("$.m", "Map(..)"), ("$.m.<empty>.key", "Utf8"), ("$.m.<empty>.value", "Dictionary(..)"),
         ("$.m.<empty>.value.key", "Int8"), ("$.m.<empty>.value.value", "Utf8")] := by decide
+
+/-! ## reader half
+
+Model: `SaModel/Read/Annot.lean` — the reads of `Read/Reader.lean` with the paths `ArrayDeserializer::new`
+assembles and the `.ctx(self)` wrappers of every reader.  `AnnFixes.all` is the code after the two `fix:` commits
+of this property (EnumDeserializer::deserialize_enum and FixedSizeListDeserializer::deserialize_seq had no
+wrapper), `AnnFixes.pinned` the tree before them. -/
+
+/-- **paths_assembled, readers.** The reader tree `ArrayDeserializer::new(path, _, view)` builds has one reader per
+position of the view's type (`segsArr`: child names through `ChildName`, map children below the entries name, no
+child readers below a dictionary), each at `path` followed by the `.`-joined child names, labelled with the family
+of the view there.  By recursion over the view. -/
+theorem reader_paths_assembled (a : Arr) (path : String) :
+    rpositions path a = (segsArr a).map fun q => (render path q.1, q.2) :=
+  rpositions_eq a path
+
+/-- **read_not_plain.** No `deserialize_any` and no typed read (any target shape, any view, any row) returns an
+error without annotations. -/
+theorem read_not_plain (fx : Fixes) (t : Target) (p : String) (a : Arr) (idx : Nat) (msg : String) :
+    readAnyA fx p a idx ≠ .error (.err msg) ∧ readAsA AnnFixes.all fx p t a idx ≠ .error (.err msg) :=
+  ⟨readAnyA_not_plain fx p a idx msg, readAsA_not_plain fx t p a idx msg⟩
+
+/-- **read_error_position.** Every annotated error a read of the reader at `p` returns carries `field` = the path
+and `data_type` = the label of a reader of its own subtree: the reader itself or one below it, never a sibling,
+never one outside.  (Holds before the fixes as well: what the pinned tree gets wrong is *which* reader of the
+path — see `pinned_union_blames_ancestor`.) -/
+theorem read_error_position (af : AnnFixes) (fx : Fixes) (t : Target) (p : String) (a : Arr) (idx : Nat)
+    (msg : String) (ann : List (String × String)) :
+    (readAnyA fx p a idx = .error (.errCtx msg ann) → ∃ q ∈ rpositions p a, ann = [("data_type", q.2), ("field", q.1)]) ∧
+    (readAsA af fx p t a idx = .error (.errCtx msg ann) → ∃ q ∈ rpositions p a, ann = [("data_type", q.2), ("field", q.1)]) :=
+  ⟨readAnyA_within fx a p idx msg ann, readAsA_within af fx t p a idx msg ann⟩
+
+/-- the record level (`Deserializer::get(idx)` + `T::deserialize`): an error is always annotated, and names `$` or
+a reader below `$.<column>` with that reader's label -/
+theorem readRecord_error_position (fx : Fixes) (t : Target) (fm : FieldMeta) (col : Arr) (idx : Nat) (e : Fail)
+    (h : readRecordA AnnFixes.all fx t fm col idx = some (.error e)) :
+    (∃ site, e = .panic site) ∨ ∃ msg q, e = .errCtx msg [("data_type", q.2), ("field", q.1)] ∧
+      (q = ("$", "Struct(..)") ∨ q ∈ rpositions ("$." ++ rchildName fm.name) col) := by
+  unfold readRecordA at h
+  split at h
+  · cases h
+  · simp only [Option.some.injEq] at h
+    cases e with
+    | panic s => exact .inl ⟨s, rfl⟩
+    | err msg => exact absurd h (readAsA_not_plain fx t _ _ idx msg)
+    | errCtx msg ann =>
+      obtain ⟨q, hq, rfl⟩ := readAsA_within AnnFixes.all fx t "$" _ idx msg ann h
+      refine .inr ⟨msg, q, rfl, ?_⟩
+      simp only [record, rpositions, rpositionsF, List.append_nil, List.mem_cons] at hq
+      rcases hq with rfl | hq
+      · exact .inl rfl
+      · right
+        have e1 : rchild "$" fm.name = "$." ++ rchildName fm.name := by
+          unfold rchild
+          have : ("$" : String) ++ "." = "$." := by decide
+          rw [this]
+        rw [← e1]; exact hq
+
+/-! ### witnesses -/
+
+/-- a union column `c` holding variant `f0`, read into an enum that has no such variant -/
+def exUnion : Arr := .union [0] (some [0]) (.cons 0 ⟨"f0", false, []⟩ (.prim .int32 none [7]) .nil)
+def exUnionTarget : Target := .struct (.cons "c" (.enum false (.cons "x" (.newtype .any) .nil)) .nil)
+
+/-- the code that exists blames the union column … -/
+theorem fixed_union_blames_union :
+    readRecordA AnnFixes.all Fixes.all exUnionTarget ⟨"c", false, []⟩ exUnion 0 =
+      some (.error (.errCtx "unknown variant" [("data_type", "Union(..)"), ("field", "$.c")])) := by decide
+
+/-- … the pinned tree only names the root (an ancestor): the C18 violation repaired by
+`fix: EnumDeserializer annotates the errors of deserialize_enum …` -/
+theorem pinned_union_blames_ancestor :
+    readRecordA AnnFixes.pinned Fixes.all exUnionTarget ⟨"c", false, []⟩ exUnion 0 =
+      some (.error (.errCtx "unknown variant" [("data_type", "Struct(..)"), ("field", "$")])) := by decide
+
+/-- a struct column whose fixed-size-list child is shorter than the struct (row 1 does not exist in the child) -/
+def exFsl : Arr := .struct 2 none (.cons ⟨"x", false, []⟩
+  (.fixedSizeList 1 none 2 ⟨"item", false, []⟩ (.prim .int32 none [1, 2])) .nil)
+def exFslTarget : Target := .struct (.cons "c" (.struct (.cons "x" (.seq .any) .nil)) .nil)
+
+theorem fixed_fsl_blames_list :
+    readRecordA AnnFixes.all Fixes.all exFslTarget ⟨"c", false, []⟩ exFsl 1 =
+      some (.error (.errCtx "Out of bounds access" [("data_type", "FixedSizeList(..)"), ("field", "$.c.x")])) := by decide
+
+/-- pinned: blamed on the enclosing struct column (`fix: FixedSizeListDeserializer annotates the errors of
+deserialize_seq …`) -/
+theorem pinned_fsl_blames_ancestor :
+    readRecordA AnnFixes.pinned Fixes.all exFslTarget ⟨"c", false, []⟩ exFsl 1 =
+      some (.error (.errCtx "Out of bounds access" [("data_type", "Struct(..)"), ("field", "$.c")])) := by decide
+
+/-- non-vacuity of `reader_paths_assembled` / `read_error_position`: a map column below a list -/
+example :
+    rpositions "$.c" (.list false none [0, 1] ⟨"", true, []⟩
+      (.map none [0, 1] ⟨"entries", false, ⟨"key", false, []⟩, ⟨"", true, []⟩⟩
+        (.bytes .utf8 none [0, 1] [97]) (.dictionary (.prim .int8 none [0]) (.bytes .utf8 none [0, 1] [98])))) =
+      [("$.c", "List(..)"), ("$.c.<empty>", "Map(..)"), ("$.c.<empty>.entries.key", "Utf8"),
+       ("$.c.<empty>.entries.<empty>", "Dictionary(..)")] := by decide
 
 end SaModel.Props.C18
